@@ -1,7 +1,7 @@
 (* Props/C10.v — Numeric encoding preserves order; range decomposition is exact.
    Only statements, each closed by `exact`, with Print Assumptions beneath. *)
 From Coq Require Import ZArith List.
-From Bluge Require Import Base.Int64 Base.Res Gen.Params Search.Numeric Search.NumericProofs.
+From Bluge Require Import Base.Int64 Base.Res Gen.ParamsNumeric Search.Numeric Search.NumericProofs.
 Import ListNotations.
 Open Scope Z_scope.
 
